@@ -257,6 +257,7 @@ Section Static.
     - (* LCopy *)
       destruct (mget (lh_map s) vpn) as [id|]; [|apply kept_refl]. cbn [fst]. split; [|auto].
       apply ext_on_list. repeat constructor.
+    - (* LHsCheck *) apply kept_refl.
   Qed.
 
   Lemma kept_lrun ops : forall s, Forall keeps_op ops -> kept s (lrun c s ops).
